@@ -20,7 +20,9 @@ RULE = ('cases = random flat machines (2-6 states, plain or Enum states, labels,
         'conditions / unless with fixed values, custom labels), display options show_conditions / '
         'show_auto_transitions / show_state_attributes drawn independently, any state as initial, and a history '
         'of 0-7 steps: model.trigger(event) (known triggers, to_<state>, unknown names), add_states (top level, '
-        'leaf or compound), add_transition, remove_transition (with and without source/dest filters); every 9th '
+        'leaf or compound), add_transition, remove_transition (with and without source/dest filters); in 40 % of '
+        'the cases with events (non-Enum, all states simple) 1-3 on_enter callbacks fire follow-up events from inside '
+        'the callback (chains A -e1-> B, on_enter of B fires e2, B -e2-> C; budget 1-3 per call); every 9th '
         'case is a static "wide" case (more states / transitions, no history).  After construction and after '
         'every step the full and the region-of-interest diagram are parsed and compared (edge lines as a set, '
         'labels of one edge as a multiset).  Non-trivial: the model state changed at least once during the '
@@ -28,7 +30,12 @@ RULE = ('cases = random flat machines (2-6 states, plain or Enum states, labels,
         'distinct by hash of the case.')
 ASSUMPTIONS = ['only the Mermaid backend exists in this sandbox (python modules graphviz / pygraphviz are not '
                'installed): every case uses graph_engine="mermaid"; the graphviz backends are not exercised',
-               'one model per machine; callbacks neither raise nor call back into the machine',
+               'one model per machine; callbacks do not raise; the only callbacks that call back into the machine are '
+               'on_enter callbacks firing a follow-up event with model.trigger (unqueued machines, nesting bounded by '
+               'a per-call counter 1-3, failing follow-ups swallowed by the callback), on machines whose states are all '
+               'simple (either machine class); on_exit callbacks that fire events or callbacks that regenerate the '
+               'graphs are reported findings (probes/KF-C16-2.py, KF-C16-3.py) and not generated; async graph machines '
+               'are not exercised (probes/KF-C16-1.py)',
                'histories with events use machines without parallel states (dispatch on a single active branch: '
                'leaf first, then ancestors, first transition whose checks pass); parallel states are covered in '
                'cases whose history consists of add/remove operations only (the model state may be a parallel '
@@ -38,8 +45,9 @@ ASSUMPTIONS = ['only the Mermaid backend exists in this sandbox (python modules 
                'indentation of the Mermaid text are skipped by the parser',
                'the order of edge lines and of the labels within one edge line is not compared (dict order)']
 THEOREMS = ['C16_states_once', 'C16_nesting', 'C16_parallel_separated', 'C16_edges', 'C16_edges_user',
-            'C16_edges_only', 'C16_label', 'C16_marks', 'C16_styles', 'C16_roi', 'C16_refresh', 'C16_added_state',
-            'C16_added_transition', 'C16_removed_transition', 'C16_example_wf']
+            'C16_edges_only', 'C16_label', 'C16_marks', 'C16_styles', 'C16_styles_exit_refuted', 'C16_roi',
+            'C16_refresh', 'C16_added_state', 'C16_added_transition', 'C16_removed_transition', 'C16_example_wf',
+            'C16_example_nested']
 
 REPO = os.environ.get('VERIF_REPO', '/repo')
 TEXTS = ['A', 'B', 'C', 'D', 'E', 'F', 'G', 'H', 'idle', 'run', 'S1', 'S2', 'x', 'y', 'z', 'p', 'q', 'On', 'Off',
@@ -51,6 +59,11 @@ CBS = ['cbA', 'cbB', 'cbC']
 LABEL_ALPHA = 'abcXYZ019 .-+()[]!&/'
 # compound states added after construction (stale root 'children' in the markup, see the final report)
 ADD_COMPOUND = True
+# callbacks that fire a follow-up event from inside the callback (nested processing on an unqueued machine)
+ACT_CBS = ['fwA', 'fwB', 'fwC']
+# acting callbacks in on_exit lists: the model mirrors the library (a stale 'active' style remains, see
+# Props/C16.v C16_styles_exit_refuted and probes/KF-C16-3.py); not generated until the finding is decided
+EXIT_ACTS = False
 
 
 def _import_transitions():
@@ -125,13 +138,14 @@ def gen(rng, i, tier):
     hsm = rng.random() < 0.6
     with_events = (not wide) and rng.random() < 0.75
     use_enum = (not hsm) and rng.random() < 0.2
+    nested = with_events and not use_enum and rng.random() < 0.4
     ids = list(range(len(TEXTS)))
     perm = ids[:]
     rng.shuffle(perm)
     ids = perm
     if hsm:
         ntop = rng.randint(2, 6 if wide else 4)
-        forest = [_node(rng, ids, 1, True, not with_events) for _ in range(ntop)]
+        forest = [_node(rng, ids, 1, not nested, not with_events) for _ in range(ntop)]
     else:
         ntop = rng.randint(2, 9 if wide else 6)
         forest = [_node(rng, ids, 1, False, False, plain=use_enum) for _ in range(ntop)]
@@ -140,7 +154,9 @@ def gen(rng, i, tier):
     trans = [_trans(rng, paths, val) for _ in range(rng.randint(1, 16 if wide else 8))]
     opts = dict(conds=rng.random() < 0.5, auto=rng.random() < 0.25, attrs=rng.random() < 0.35)
     case = dict(kind='hsm' if hsm else 'flat', enum=use_enum, opts=opts, states=forest, trans=trans,
-                initial=rng.choice(paths), ops=[], val=val)
+                initial=rng.choice(paths), ops=[], val=val, acts={}, budget=0)
+    if nested:
+        _add_acts(rng, case, val)
     if wide:
         return case
     cur_forest = copy.deepcopy(forest)
@@ -160,7 +176,9 @@ def gen(rng, i, tier):
                 ev = rng.choice(TRIGGERS)
             case['ops'].append(['ev', ev])
         elif r < 0.75 and not use_enum and len(ids) > 4:
-            nd = _node(rng, ids, 1, hsm and ADD_COMPOUND, hsm and not with_events)
+            nd = _node(rng, ids, 1, hsm and ADD_COMPOUND and not nested, hsm and not with_events)
+            if nested and rng.random() < 0.4:
+                nd['enter'].insert(rng.randint(0, len(nd['enter'])), rng.choice(sorted(case['acts']) or ACT_CBS[:1]))
             cur_forest.append(nd)
             case['ops'].append(['adds', nd])
         elif r < 0.9 or not cur_trans:
@@ -178,6 +196,39 @@ def gen(rng, i, tier):
                         and (dst is None or u['dst'] == dst))
             cur_trans = [u for u in cur_trans if not gone(u)]
     return case
+
+
+def _add_acts(rng, case, val):
+    """state callbacks that fire follow-up events: chains src --e1--> dst with an on_enter callback of dst firing
+    e2 for which dst has a transition, plus a few acting callbacks at random places"""
+    forest, trans = case['states'], case['trans']
+    case['budget'] = rng.randint(1, 3)
+    byid = {nd['id']: nd for nd in forest}
+    for cb in ACT_CBS[:rng.randint(1, len(ACT_CBS))]:
+        cands = [t for t in trans if t['dst'] is not None]
+        if not cands or rng.random() < 0.3:
+            t1 = dict(trig=rng.choice(TRIGGERS), label=None, src=[rng.choice(forest)['id']],
+                      dst=[rng.choice(forest)['id']], conds=[], unless=[])
+            trans.append(t1)
+        else:
+            t1 = rng.choice(cands)
+        dst = byid[t1['dst'][0]]
+        leaving = [t for t in trans if t['src'] == t1['dst'] and t['dst'] is not None]
+        if leaving and rng.random() < 0.7:
+            e2 = rng.choice(leaving)['trig']
+        else:
+            e2 = rng.choice(TRIGGERS)
+            trans.append(dict(trig=e2, label=None, src=t1['dst'], dst=[rng.choice(forest)['id']], conds=[], unless=[]))
+        case['acts'][cb] = e2
+        dst['enter'].insert(rng.randint(0, len(dst['enter'])), cb)
+        if rng.random() < 0.4:
+            nd = rng.choice(forest)
+            nd['enter'].insert(rng.randint(0, len(nd['enter'])), cb)
+        if EXIT_ACTS and rng.random() < 0.3:
+            nd = rng.choice(forest)
+            nd['exit'].insert(rng.randint(0, len(nd['exit'])), cb)
+    if rng.random() < 0.5:
+        case['initial'] = rng.choice([t['src'] for t in trans])
 
 
 # ------------------------------------------------------------------ encoding for the model
@@ -214,7 +265,8 @@ def enc(case):
     o = case['opts']
     return [[o['conds'], o['auto'], o['attrs'], case['kind'] == 'hsm', bool(case['enum'])],
             [enc_node(n) for n in case['states']], [enc_trans(t) for t in case['trans']],
-            case['initial'], [enc_op(x) for x in case['ops']]]
+            case['initial'], [enc_op(x) for x in case['ops']],
+            [[_s(c), _s(e)] for c, e in sorted(case.get('acts', {}).items())], case.get('budget', 0)]
 
 
 # ------------------------------------------------------------------ implementation side
@@ -352,6 +404,19 @@ def impl(case):
         setattr(Model, c, (lambda v: (lambda self, *a, **k: v))(val[c]))
     for c in CBS:
         setattr(Model, c, lambda self, *a, **k: None)
+
+    def acting(ev):
+        def cb(self, *a, **k):
+            if self.budget_ > 0:
+                self.budget_ -= 1
+                try:
+                    self.trigger(ev)
+                except (tr.MachineError, AttributeError):
+                    pass
+        return cb
+    for c, ev in case.get('acts', {}).items():
+        setattr(Model, c, acting(ev))
+    Model.budget_ = 0
     model = Model()
 
     en = None
@@ -389,6 +454,7 @@ def impl(case):
     obs = [observe()]
     for op in case['ops']:
         if op[0] == 'ev':
+            model.budget_ = case.get('budget', 0)
             try:
                 model.trigger(op[1])
             except (tr.MachineError, AttributeError):
@@ -438,6 +504,14 @@ def in_envelope(case):
     forests = [case['states']] + [[o[1]] for o in case['ops'] if o[0] == 'adds']
     if any(o[0] == 'ev' for o in case['ops']) and any(has_par(f) for f in forests):
         return False
+    acts = case.get('acts', {})
+    if acts:
+        # follow-up events from state callbacks: machines whose states are all simple; on_enter callbacks only
+        nodes = [nd for f in forests for nd in _all_nodes(f)]
+        if any(nd['kids'] for nd in nodes):
+            return False
+        if not EXIT_ACTS and any(c in acts for nd in nodes for c in nd['exit']):
+            return False
     return True
 
 
@@ -487,6 +561,8 @@ def stats(case, obs, dist):
     inc('kind_' + case['kind'])
     if case['enum']:
         inc('enum_states')
+    if case.get('acts'):
+        inc('with_follow_up_callbacks')
     for k in ('conds', 'auto', 'attrs'):
         if case['opts'][k]:
             inc('opt_' + k)
@@ -529,6 +605,10 @@ def shrink_candidates(case):
             c = copy.deepcopy(case)
             c['opts'][key] = False
             yield c
+    for cb in sorted(case.get('acts', {})):
+        c = copy.deepcopy(case)
+        del c['acts'][cb]
+        yield c
     for i, t in enumerate(case['trans']):
         for key in ('conds', 'unless'):
             if t[key]:
